@@ -327,9 +327,19 @@ def _native_probe(which, nasties=None):
             cp = prs.core_properties
             for attr in ("author", "title", "subject", "keywords", "comments", "category", "content_status", "identifier", "language", "last_modified_by", "version"):
                 setattr(cp, attr, nasties[(len(attr) * 7) % len(nasties)])
+            # the documented limit counts characters of the string given, whatever they are
+            for attr, long_ in (("title", "&" * 255), ("subject", "<>" * 127 + "<"), ("keywords", '"' * 255), ("comments", "R&D <Q3> " * 28)):
+                try:
+                    setattr(cp, attr, long_)
+                except ValueError as e:
+                    return (True, "core_properties.%s = %d markup characters (limit 255) was refused: %s" % (attr, len(long_), e))
+                if getattr(cp, attr) != long_:
+                    return (True, "core_properties.%s = %r... reads back %r..." % (attr, long_[:12], getattr(cp, attr)[:20]))
             buf = io.BytesIO()
             prs.save(buf)
             prs2 = Presentation(io.BytesIO(buf.getvalue()))
+            if prs2.core_properties.title != "&" * 255 or prs2.core_properties.comments != "R&D <Q3> " * 28:
+                return (True, "core properties of 255 markup characters differ after save and re-open")
             for k, nasty in enumerate(nasties):
                 for label, obj, attr in carriers(prs2.slides[k + 1]):
                     if getattr(obj, attr) != nasty:
@@ -339,7 +349,7 @@ def _native_probe(which, nasties=None):
             if got != spellings + spellings:
                 bad_i = [i for i, (a, b) in enumerate(zip(got, spellings + spellings)) if a != b][:1]
                 return (True, "after save and re-open, link %s reads %r, assigned %r" % (bad_i, got[bad_i[0]] if bad_i else got, (spellings + spellings)[bad_i[0]] if bad_i else spellings))
-            for attr in ("author", "title", "subject", "keywords", "comments", "category", "content_status", "identifier", "language", "last_modified_by", "version"):
+            for attr in ("author", "category", "content_status", "identifier", "language", "last_modified_by", "version"):
                 want = nasties[(len(attr) * 7) % len(nasties)]
                 if getattr(prs2.core_properties, attr) != want:
                     return (True, "core_properties.%s = %r reads %r after save and re-open" % (attr, want, getattr(prs2.core_properties, attr)))
